@@ -242,7 +242,8 @@ impl World {
         }
     }
 
-    pub fn ev_key_raw(&mut self, k: usize, kem: KemId, sk: &[u8], pk: &[u8]) -> V {
+    pub fn ev_key_raw(&mut self, k: usize, kem: KemId, sk: &[u8], pk: &[u8], cov: &mut Cov) -> V {
+        cov.sig_event("KeyRaw", &format!("{:?}{}", kem, short_hex(&pk[..pk.len().min(6)])));
         *slot(&mut self.keys, k) = Some(Key { kem, sk: sk.to_vec(), pk: pk.to_vec() });
         Ok(())
     }
